@@ -1,0 +1,124 @@
+//go:build verif
+
+// Contracts for in_flight_pqueue.go (C02, C04, C08), checked by /verif/cmd/nsqvc. Comment-only file.
+
+package nsqd
+
+// bidx: every slot of the first n holds a message whose back-index is that slot (hence no duplicates).
+//@ pred bidx(pq inFlightPqueue, n int) :=
+//@      forall k int :: {pq[k]} 0 <= k && k < n ==> pq[k] != nil && pq[k].index == k
+// ord(k): the heap edge parent(k) -> k is in order. parent(k) is Go's truncated (k-1)/2.
+//@ pred ord(pq inFlightPqueue, k int) := pq[(k-1)/2].pri <= pq[k].pri
+//@ pred heap(pq inFlightPqueue, n int) := forall k int :: {pq[k]} 0 < k && k < n ==> ord(pq, k)
+// member: m currently sits in the queue (its back-index points at its own slot).
+//@ pred member(pq inFlightPqueue, n int, m *Message) := m != nil && 0 <= m.index && m.index < n && pq[m.index] == m
+//@ pred wfPQ(pq inFlightPqueue) := bidx(pq, len(pq)) && heap(pq, len(pq)) && cap(pq) >= 1 && cap(pq) <= 140737488355328
+
+//@ func (pq inFlightPqueue) Swap(i, j int)
+//@   props C02 C04 C08
+//@   requires 0 <= i && i < len(pq) && 0 <= j && j < len(pq)
+//@   requires pq[i] != nil && pq[j] != nil && (i != j ==> pq[i] != pq[j])
+//@   ensures pq[i] == old(pq[j]) && pq[j] == old(pq[i])
+//@   ensures pq[i].index == i && pq[j].index == j
+//@   ensures forall k int :: {pq[k]} 0 <= k && k < len(pq) && k != i && k != j ==> pq[k] == old(pq[k])
+//@   modifies elems(pq), pq[i].index, pq[j].index
+
+// up(j) restores heap order on the first m slots (ghost bound: Remove calls it while the removed
+// element still occupies the last slot) when the only violated edge is the one into j.
+//@ func (pq *inFlightPqueue) up(j int)
+//@   props C02 C04 C08
+//@   ghostparam gm *Message
+//@   ghostparam m int
+//@   requires pq != nil && 0 <= j && j < m && m <= len(*pq) && bidx(*pq, len(*pq))
+//@   requires[heap-except-j] forall k int :: {(*pq)[k]} 0 < k && k < m && k != j ==> ord(*pq, k)
+//@   requires[grandparent] forall k int :: {(*pq)[k]} 0 < k && k < m && (k-1)/2 == j && j > 0 ==> (*pq)[(j-1)/2].pri <= (*pq)[k].pri
+//@   ensures *pq == old(*pq)
+//@   ensures bidx(*pq, len(*pq)) && heap(*pq, m)
+//@   ensures[tail] forall k int :: {(*pq)[k]} j < k && k < len(*pq) ==> (*pq)[k] == old((*pq)[k])
+//@   ensures[members] member(*pq, len(*pq), gm) <==> old(member(*pq, len(*pq), gm))
+//@   ensures[others] !old(member(*pq, len(*pq), gm)) ==> gm.index == old(gm.index)
+//@   modifies elems(*pq), Message.index
+//@   loop 0
+//@     invariant 0 <= j && j <= old(j) && *pq == old(*pq) && bidx(*pq, len(*pq))
+//@     invariant forall k int :: {(*pq)[k]} 0 < k && k < m && k != j ==> ord(*pq, k)
+//@     invariant forall k int :: {(*pq)[k]} 0 < k && k < m && (k-1)/2 == j && j > 0 ==> (*pq)[(j-1)/2].pri <= (*pq)[k].pri
+//@     invariant forall k int :: {(*pq)[k]} old(j) < k && k < len(*pq) ==> (*pq)[k] == old((*pq)[k])
+//@     invariant member(*pq, len(*pq), gm) <==> old(member(*pq, len(*pq), gm))
+//@     invariant !old(member(*pq, len(*pq), gm)) ==> gm.index == old(gm.index)
+//@     decreases j
+
+//@ func (pq *inFlightPqueue) down(i, n int)
+//@   props C02 C04 C08
+//@   ghostparam gm *Message
+//@   requires pq != nil && 0 <= i && i <= n && n <= len(*pq) && bidx(*pq, len(*pq))
+//@   requires[heap-except-i] forall k int :: {(*pq)[k]} 0 < k && k < n && k != i && (k-1)/2 != i ==> ord(*pq, k)
+//@   requires[grandparent] forall k int :: {(*pq)[k]} 0 < k && k < n && (k-1)/2 == i && i > 0 ==> (*pq)[(i-1)/2].pri <= (*pq)[k].pri
+//@   ensures *pq == old(*pq)
+//@   ensures bidx(*pq, len(*pq))
+//@   ensures[heap-except-i] forall k int :: {(*pq)[k]} 0 < k && k < n && k != i ==> ord(*pq, k)
+//@   ensures[grandparent] forall k int :: {(*pq)[k]} 0 < k && k < n && (k-1)/2 == i && i > 0 ==> (*pq)[(i-1)/2].pri <= (*pq)[k].pri
+//@   ensures[tail] forall k int :: {(*pq)[k]} n <= k && k < len(*pq) ==> (*pq)[k] == old((*pq)[k])
+//@   ensures[above] forall k int :: {(*pq)[k]} 0 <= k && k < i ==> (*pq)[k] == old((*pq)[k])
+//@   ensures[members] member(*pq, len(*pq), gm) <==> old(member(*pq, len(*pq), gm))
+//@   ensures[others] !old(member(*pq, len(*pq), gm)) ==> gm.index == old(gm.index)
+//@   modifies elems(*pq), Message.index
+//@   loop 0
+//@     invariant old(i) <= i && i <= n && *pq == old(*pq) && bidx(*pq, len(*pq))
+//@     invariant forall k int :: {(*pq)[k]} 0 < k && k < n && k != old(i) && (k-1)/2 != i ==> ord(*pq, k)
+//@     invariant forall k int :: {(*pq)[k]} 0 < k && k < n && (k-1)/2 == i && i > 0 ==> (*pq)[(i-1)/2].pri <= (*pq)[k].pri
+//@     invariant forall k int :: {(*pq)[k]} 0 < k && k < n && (k-1)/2 == old(i) && old(i) > 0 ==> (*pq)[(old(i)-1)/2].pri <= (*pq)[k].pri
+//@     invariant i != old(i) && old(i) > 0 ==> ord(*pq, old(i))
+//@     invariant forall k int :: {(*pq)[k]} n <= k && k < len(*pq) ==> (*pq)[k] == old((*pq)[k])
+//@     invariant forall k int :: {(*pq)[k]} 0 <= k && k < old(i) ==> (*pq)[k] == old((*pq)[k])
+//@     invariant member(*pq, len(*pq), gm) <==> old(member(*pq, len(*pq), gm))
+//@     invariant !old(member(*pq, len(*pq), gm)) ==> gm.index == old(gm.index)
+//@     decreases n - i
+
+// Queues stay far below 2^46 entries (assumption): needed for `c*2` and make's size limit.
+//@ func (pq *inFlightPqueue) Push(x *Message)
+//@   props C02 C04 C08
+//@   ghostparam gm *Message
+//@   inst up.m len(old(*pq)) + 1
+//@   requires pq != nil && x != nil && wfPQ(*pq) && cap(*pq) <= 70368744177664
+//@   requires[not-queued] forall k int :: {(*pq)[k]} 0 <= k && k < len(*pq) ==> (*pq)[k] != x
+//@   ensures wfPQ(*pq) && len(*pq) == old(len(*pq)) + 1
+//@   ensures[added] member(*pq, len(*pq), x)
+//@   ensures[members] gm != x ==> (member(*pq, len(*pq), gm) <==> old(member(*pq, len(*pq), gm)))
+//@   ensures[others] gm != x && !old(member(*pq, len(*pq), gm)) ==> gm.index == old(gm.index)
+//@   modifies *pq, elems(*pq), Message.index
+
+//@ func (pq *inFlightPqueue) Pop() *Message
+//@   props C02 C04 C08
+//@   ghostparam gm *Message
+//@   requires pq != nil && wfPQ(*pq) && len(*pq) >= 1
+//@   ensures[min] result == old((*pq)[0]) && result.index == -1
+//@   ensures wfPQ(*pq) && len(*pq) == old(len(*pq)) - 1
+//@   ensures[members] gm != result ==> (member(*pq, len(*pq), gm) <==> old(member(*pq, len(*pq), gm)))
+//@   ensures[others] gm != result && !old(member(*pq, len(*pq), gm)) ==> gm.index == old(gm.index)
+//@   modifies *pq, elems(*pq), Message.index
+
+//@ func (pq *inFlightPqueue) Remove(i int) *Message
+//@   props C02 C04 C08
+//@   ghostparam gm *Message
+//@   inst up.m len(old(*pq)) - 1
+//@   requires pq != nil && wfPQ(*pq) && 0 <= i && i < len(*pq)
+//@   ensures[removed] result == old((*pq)[i]) && result.index == -1
+//@   ensures wfPQ(*pq) && len(*pq) == old(len(*pq)) - 1
+//@   ensures[members] gm != result ==> (member(*pq, len(*pq), gm) <==> old(member(*pq, len(*pq), gm)))
+//@   ensures[others] gm != result && !old(member(*pq, len(*pq), gm)) ==> gm.index == old(gm.index)
+//@   modifies *pq, elems(*pq), Message.index
+
+// PeekAndShift never hands out an entry whose deadline is after max (never early), and hands out
+// the root or nothing.
+//@ func (pq *inFlightPqueue) PeekAndShift(max int64) (*Message, int64)
+//@   props C02 C04 C08
+//@   ghostparam gm *Message
+//@   requires pq != nil && wfPQ(*pq)
+//@   ensures[never-early] result0 != nil ==> result0.pri <= max
+//@   ensures[root] result0 != nil ==> result0 == old((*pq)[0]) && result0.index == -1 && len(*pq) == old(len(*pq)) - 1
+//@   ensures[nothing] result0 == nil ==> *pq == old(*pq) && (len(*pq) == 0 || (*pq)[0].pri > max)
+//@   ensures[nothing-frame] result0 == nil ==> gm.index == old(gm.index) && (member(*pq, len(*pq), gm) <==> old(member(*pq, len(*pq), gm)))
+//@   ensures wfPQ(*pq)
+//@   ensures[members] result0 != nil && gm != result0 ==> (member(*pq, len(*pq), gm) <==> old(member(*pq, len(*pq), gm)))
+//@   ensures[others] result0 != nil && gm != result0 && !old(member(*pq, len(*pq), gm)) ==> gm.index == old(gm.index)
+//@   modifies *pq, elems(*pq), Message.index
